@@ -35,7 +35,7 @@ func (interp *Interpreter) Symbols(importPath string) Exports {
 			case constSym:
 				syms[n] = s.rval
 			case funcSym:
-				syms[n] = genFunctionWrapper(s.node)(interp.frame)
+				syms[n] = genHostFunctionWrapper(s.node)(interp.frame)
 			case varSym:
 				syms[n] = interp.frame.data[s.index]
 			case typeSym:
